@@ -193,7 +193,7 @@ func (b *c19Box) run(killAt int, tag string) c19RunRes {
 				r.exit = -1
 			}
 		}
-	case <-time.After(60 * time.Second):
+	case <-time.After(240 * time.Second):
 		syscall.Kill(-cmd.Process.Pid, syscall.SIGKILL)
 		<-done
 		r.exit = -2
